@@ -42,7 +42,7 @@ NOTES = {
  "C15b": "round 2; first missed; rule C15 R4 (enumerate() directly over the page list) added",
  "C16b": "round 2; first missed; rule C16 R6 (the complete key list reaches collision_font_mapping) added",
  "C17b": "round 2; first missed; rule C17 R5 (every edit of a batch is written: the latest wins) added",
- "C18b": "round 2; caught by C18 R1/R2 as first written (the visited test left the pop site; the work-stack push count changed)",
+ "C18b": "round 2; first reported by C18 R1 (and by C01 R3) as an unguarded reference loop — wrong reason: termination is intact, the visited test had only moved to queue time (a false alarm for C01, found by running every check on every seed). The loop rule now accepts a queue-time visited test (DESIGN §12 L41) and C18 R1b reports the real fault: marking at queue time on a reversed LIFO stack breaks first-occurrence order; R2's push-site floor also fails closed",
  "C20b": "round 2; caught by the order-taint rule as first written (hash iteration reaching allocate_object_id)",
  "C25b": "round 2; first missed; rule C25 R7 (u8 ranges that fill encoding tables end inclusively at 0xFF) added",
  "C28b": "round 2; first missed; rule C28 R5 (/Count is computed from a recursive descendant count on both branches) added",
